@@ -40,6 +40,9 @@ def implements(*fs):
 
 
 # ----------------------------------------------------------------- conversions
+_np_count_nonzero = np.count_nonzero
+
+
 def _frompy(f, nin):
     """Element-wise application over object arrays by explicit iteration.  (np.frompyfunc would make NumPy dispatch on
     the __array_ufunc__ of scalar terms held in 0-d arrays.)"""
@@ -883,6 +886,17 @@ def _clip(a, a_min=None, a_max=None, out=None, **kw):
     if a_max is not None:
         r = np.minimum(r, a_max)
     return r
+
+
+@implements(np.count_nonzero)
+def _count_nonzero(a, axis=None, keepdims=False):
+    # the count is a Python int: every symbolic truth value is decided (path fork)
+    a = _sa(a)
+    flags = np.empty(a.shape, dtype=bool)
+    for i in np.ndindex(*a.shape):
+        v = a.data[i]
+        flags[i] = bool(v != 0) if not isinstance(v, (SymBool, bool, np.bool_)) else bool(v)
+    return _np_count_nonzero(flags, axis=axis, keepdims=keepdims)
 
 
 @implements(np.isclose)
